@@ -409,6 +409,17 @@ def check_body(R, b, f, entries, RA, depth=0):
                     # use in the guard block itself: part of the guard expression (e.g. `dest.0 + cols <= num_cols`)
                     undominated.append((what + "(in guard)", span))
             R.inst(b.ident, "%s (%s %s): guard `%s` against %s dominates all %d sensitive uses" % (pdesc, unit, role, found[4], found[2], len(g.sensitive_uses(pp))), not undominated)
+            # "any out-of-range index panics": no normal return may bypass the guard
+            if depth == 0:
+                byp = []
+                for rbi, rbl in enumerate(b.blocks):
+                    tt = rbl["term"]
+                    if tt and tt["k"] == "return" and not rbl["cleanup"] and rbi in g.body.reachable(0):
+                        if found[3] not in g.dom.get(rbi, set()):
+                            byp.append(rbi)
+                R.inst(b.ident, "%s: every normal return is dominated by the guard (an out-of-range value cannot return normally)" % pdesc, not byp)
+                if byp:
+                    R.fail(b.ident, "%s:return-bypasses-guard" % pdesc, "%s can return normally without having checked %s against %s (an early return precedes the bounds check): an out-of-range index is accepted silently instead of panicking" % (b.ident, pdesc, found[2]), b.where())
             for what, span in undominated:
                 if what.startswith("arith:") and ("Add" in what or "Mul" in what or "Shl" in what):
                     RA.inst(b.ident, "%s: no `+`/`*` before the guard" % pdesc, False)
@@ -417,10 +428,61 @@ def check_body(R, b, f, entries, RA, depth=0):
                     R.fail(b.ident, "%s:undominated:%s" % (pdesc, what), "%s passes %s to %s on a path that does not go through its bounds guard" % (b.ident, pdesc, what[5:]), b.where(span))
         elif idiom and not wrong:
             R.inst(b.ident, "%s (%s %s): checked idiom nth(..).unwrap() / slice index" % (pdesc, unit, role), True)
+            if depth == 0:
+                # the checking call must lie on every path to a normal return
+                chk_blocks = [bi for bi, t, fn in b.calls() if fn and ((fn["name"] in ("nth", "nth_back") and len(t["args"]) == 2 and g.mentions_param(g.d.expr(t["args"][1]), pp, bi)) or (fn["path"] in ("core::ops::Index::index", "core::ops::IndexMut::index_mut") and len(t["args"]) == 2 and strip(g.d.expr(t["args"][1])) == _pexpr(pp)))]
+                byp = []
+                for rbi, rbl in enumerate(b.blocks):
+                    tt = rbl["term"]
+                    if tt and tt["k"] == "return" and not rbl["cleanup"] and rbi in g.body.reachable(0):
+                        if not any(cb in g.dom.get(rbi, set()) for cb in chk_blocks):
+                            # two checking calls on the two arms of a branch: accept if every path passes one of them
+                            if not _all_paths_pass(b, chk_blocks, rbi):
+                                # equal to another component that did go through a checking call on this path?
+                                okeq = False
+                                for gb in range(len(b.blocks)):
+                                    tt2 = b.blocks[gb]["term"]
+                                    if not tt2 or tt2["k"] != "switch":
+                                        continue
+                                    e2 = strip(g.d.expr(tt2["discr"]))
+                                    if e2[0] != "bin" or e2[1] not in ("Eq", "Ne"):
+                                        continue
+                                    pa, pb = g.param_path(e2[2]), g.param_path(e2[3])
+                                    if pp not in (pa, pb) or pa is None or pb is None:
+                                        continue
+                                    other = pb if pa == pp else pa
+                                    tm2 = dict((int(a), b2) for a, b2 in tt2["targets"])
+                                    eq_succ = (tt2["otherwise"] if 0 in tm2 else tm2.get(1)) if e2[1] == "Eq" else tm2.get(0, tt2["otherwise"])
+                                    if eq_succ is None:
+                                        continue
+                                    ochk = [bi for bi, t, fn in b.calls() if fn and fn["name"] in ("nth", "nth_back") and len(t["args"]) == 2 and g.mentions_param(g.d.expr(t["args"][1]), other, bi)]
+                                    # every path either passes pp's own check or goes through the equal branch, and `other` is checked on all paths
+                                    if ochk and _all_paths_pass(b, ochk, rbi) and _all_paths_pass(b, chk_blocks + [eq_succ], rbi):
+                                        okeq = True
+                                if not okeq:
+                                    byp.append(rbi)
+                R.inst(b.ident, "%s: every normal return passes the checking call" % pdesc, not byp)
+                if byp:
+                    R.fail(b.ident, "%s:return-bypasses-guard" % pdesc, "%s can return normally without %s having gone through the checked nth(..).unwrap() / index (an early return precedes it): an out-of-range index is accepted silently instead of panicking" % (b.ident, pdesc), b.where())
         else:
             R.inst(b.ident, "%s (%s %s): dominating upper-bound guard" % (pdesc, unit, role), False)
             why = "; ".join(wrong) or "no guard `%s %s <%s dim>` whose failing edge panics" % (pdesc, "<" if role == "element" else "<=", unit)
             R.fail(b.ident, "%s:%s" % (pdesc, "wrong-guard" if wrong else "no-guard"), "%s: caller index %s (%s, %s) is not properly bounded before use: %s" % (b.ident, pdesc, unit, role, why), b.where())
+
+
+def _all_paths_pass(b, chk_blocks, target):
+    """no path from entry to `target` avoids all of chk_blocks"""
+    seen, work = set(), [0]
+    avoid = set(chk_blocks)
+    while work:
+        x = work.pop()
+        if x in seen or x in avoid:
+            continue
+        seen.add(x)
+        if x == target:
+            return False
+        work.extend(b.succs(x))
+    return True
 
 
 def _pexpr(pp):
